@@ -45,4 +45,23 @@ PROPS = {
         "assumptions": ["http.Request.RemoteAddr is an IP:port literal as set by net/http (host names are not generated)",
                         "hand-written model Model/Api.lean; agreement with api/gateway.go, api/util.go checked by the correspondence stream on every run"],
     },
+    "C16": {
+        "props": ["MassVerif.Props.C16"],
+        "drivers_mod": ["MassVerif.Driver.C16"],
+        "harnesses": [{
+            "name": "codec", "pkg": "harness/codec", "driver": "MassVerif/Driver/C16.lean",
+            "quick": {"n": 40}, "thorough": {"n": 800}, "search": {"n": 400},
+        }],
+        "level_text": "Unbounded proof (Lean 4) over a model of Msg()/SetMsg() for the six cluster messages, with hex, the 64-hex hash form "
+                      "and big-int<->bytes modelled concretely: every well-formed message decodes after encoding to itself (up to the fields "
+                      "that by design do not travel), the type prefix dispatches to the encoded type, and the decoder is total — no wire "
+                      "struct json.Unmarshal can produce (absent proof, null list elements, any strings) makes it panic; the frame length "
+                      "is bounded before allocation. Tied to the code by a differential check (DecodeMessage under recover + watchdog).",
+        "level_note": "Trusted: Lean kernel; encoding/json (law: Unmarshal(Marshal w) = w into the same struct type; absent object = nil), "
+                      "google/uuid and chiapos element parsing (parameters with a round-trip law; their verdict on every generated string is "
+                      "fed to the model by the harness).",
+        "trusted_base": ["encoding/json, google/uuid, chiapos BLS element (de)serialisation: parameters with round-trip laws"],
+        "assumptions": ["hand-written model Model/Codec.lean; agreement with fractal/protocol/*.go checked by the correspondence stream on every run",
+                        "memory: the frame bound (connection/conn.go) is a regenerated structural fact + the arithmetic theorem C16_frame_bound"],
+    },
 }
